@@ -1187,7 +1187,9 @@ func (f ForkId) forkId(buf *strings.Builder, start int) (bool, error) {
 			} else if _, err := buf.WriteRune('/'); err != nil {
 				return true, err
 			}
-			return f.forkId(buf, start+i+1)
+			// Continue with this part (not the next one) so that its key
+			// gets written.
+			return f.forkId(buf, start+i)
 		default:
 			panic("invalid source type")
 		}
